@@ -85,6 +85,15 @@ impl DispatcherDriver {
             .is_ok()
     }
 
+    /// keys that datagrams were forwarded to since the last call
+    pub fn take_forwarded(&mut self) -> Vec<(SocketAddr, u16)> {
+        let d = self.dispatcher.as_mut().unwrap();
+        std::mem::take(&mut d.verif_forwarded)
+            .into_iter()
+            .map(|(a, c)| (a, c.0))
+            .collect()
+    }
+
     pub fn snapshot(&self) -> VerifDispatcherSnapshot {
         let d = self.dispatcher.as_ref().unwrap();
         let mut streams: Vec<(SocketAddr, u16, bool)> = d
